@@ -776,9 +776,9 @@ def r6_private_builtins(ctx, mod):
     ctx.analysed_function(mod, fn)
     real = {'print': symexec.marker('real print'), 'len': symexec.marker('real len')}
     snapshot = dict(real)
-    mocked_obj = Obj('mocked', _default_builtins=real, ORIGINAL_BUILTINS=dict(real))
-    mocked_obj.attrs['__open__'] = True
-    mocked_obj.attrs['__unknown_method__'] = lambda nm, *a, **k: Obj('mocked.%s(...)' % nm, made_by=nm, args=a)
+    mocked_obj, _ = symexec.module_stub(sym, ctx.repo.module('pedal.sandbox.mocked'), 'mocked',
+                                        symexec.MOCKED_ESTABLISHED, _default_builtins=real,
+                                        ORIGINAL_BUILTINS=dict(real))
     data = {'__builtins__': real, 'leftover': 1}
     fd = symexec.new_fd(sym, mod, extra={'mocked': mocked_obj})
     is_static = any(dotted(d) == 'staticmethod' for d in fn.decorator_list)
